@@ -30,6 +30,9 @@ import CoreDhcp.Props.System
 import CoreDhcp.Props.GenAlloc4
 import CoreDhcp.Props.GenHandlers4
 import CoreDhcp.Props.GenAlloc6
+import CoreDhcp.Props.GenLoadPlugins
+import CoreDhcp.Props.GenRange4
+import CoreDhcp.Props.GenFilePlugin
 open CoreDhcp
 #print axioms C20_offset_exact
 #print axioms C20_offset_symm
@@ -211,3 +214,41 @@ open CoreDhcp
 #print axioms GEN_a6_free_outside
 #print axioms GEN_a6_allocate_eq
 #print axioms GEN_a6_allocate_eq'
+#print axioms GEN_lp_loop6_acc
+#print axioms GEN_lp_loop4_acc
+#print axioms GEN_lp_chain6_eq
+#print axioms GEN_lp_chain4_eq
+#print axioms GEN_lp_load_tagged
+#print axioms GEN_lp_load_eq
+#print axioms GEN_lp_load_ok
+#print axioms GEN_range_handler4_eq
+#print axioms GEN_range_handler4_eq'
+#print axioms GEN_range_remarkBody_eq
+#print axioms GEN_range_remark_eq
+#print axioms GEN_range_setup_remark
+#print axioms GEN_file_body4_eq
+#print axioms GEN_file_body6_eq
+#print axioms GEN_file_loop4_eq
+#print axioms GEN_file_loop6_eq
+#print axioms GEN_file_load4_eq
+#print axioms GEN_file_load6_eq
+#print axioms GEN_file_load4_model
+#print axioms GEN_file_load6_model
+#print axioms GEN_file_load_unreadable
+#print axioms GEN_file_loadFromFile_eq
+#print axioms GEN_file_loadFromFile_model
+#print axioms GEN_file_loadFromFile_unreadable
+#print axioms GEN_file_loadFromFile_error_unchanged
+#print axioms GEN_file_handle4_raw
+#print axioms GEN_file_handle4_eq
+#print axioms GEN_file_served4_eq
+#print axioms GEN_file_handle4_other
+#print axioms GEN_file_handle6_raw
+#print axioms GEN_file_handle6_eq
+#print axioms GEN_file_served6_eq
+#print axioms GEN_file_handle6_undecapsulated
+#print axioms GEN_file_handle6_other
+#print axioms GEN_file_exported
+#print axioms GEN_file_static_after_load
+#print axioms Gen7.wf_init
+#print axioms Gen7.wf_load
